@@ -80,6 +80,9 @@ def exec_SH(t):
         x = mkx(codes, shape, s, n, f)
         if codes_of(x) != codes:
             return ['SRCFAIL']
+        k_ = (n + f + len(codes) + codes[0]) % 5
+        if k_:
+            x.config.bin_prefix = ['b', '0b', 'B', '0B'][k_ - 1]      # the selected *binary* prefix is no part of a hex image
         r = x.hex()
     except Exception as e:
         return [exc_token(e)]
